@@ -654,3 +654,75 @@ Proof.
         -- subst g. left. exists t. split; assumption.
       * inversion Ex; subst b'. right. exists t. split; assumption.
 Qed.
+
+(** * Statements in the form used by Props/C16.v *)
+
+Lemma find_key_put_same t c raw its :
+  components t = components raw -> exists t0, find_key raw (put t c its) = Some (t0, c).
+Proof.
+  intros E. induction its as [|[t' c'] r IH]; simpl.
+  - rewrite (proj2 (key_eqb_spec t raw) E). exists t. reflexivity.
+  - assert (Ek : key_eqb t' t = key_eqb t' raw) by (unfold key_eqb; rewrite E; reflexivity).
+    rewrite Ek. destruct (key_eqb t' raw) eqn:E2; simpl; rewrite E2; [exists t'; reflexivity | exact IH].
+Qed.
+
+Lemma insert_accepts_iff_legal k raw data its :
+  C16_inv k its -> (fst (insert k raw data its) = None <-> insert_legal k raw data its).
+Proof.
+  intros Hinv. rewrite <- (validate_none_iff k raw its data (inv_keys_nonempty k its Hinv)).
+  unfold insert. destruct (validate k raw its data); simpl; split; intros H; try reflexivity; discriminate.
+Qed.
+
+Lemma rejected_noop k raw data its e its' : insert k raw data its = (Some e, its') -> its' = its.
+Proof. unfold insert. destruct (validate k raw its data); congruence. Qed.
+
+Lemma insert_stores k raw data its its' :
+  insert k raw data its = (None, its') ->
+  cell_of raw its' = Some (Loaded data) /\
+  (forall raw', components raw' <> components raw -> cell_of raw' its' = cell_of raw' its) /\
+  (forall t, In t (keys its') -> In t (keys its) \/ t = rebuild (components raw)).
+Proof.
+  unfold insert. destruct (validate k raw its data) eqn:Ev; [discriminate|]. intros E. inversion E; subst its'. clear E.
+  destruct (validate_none_basic _ _ _ _ Ev) as [V1 [V2 V3]].
+  assert (Et : components (rebuild (components raw)) = components raw).
+  { apply components_rebuild; [apply components_nonempty; exact V1 | apply components_plain; exact V3]. }
+  split; [|split].
+  - destruct (find_key_put_same (rebuild (components raw)) (Loaded data) raw its Et) as [t0 H].
+    unfold cell_of. rewrite H. reflexivity.
+  - intros raw' Hne. unfold cell_of. rewrite find_key_put_other; [reflexivity|]. rewrite Et. congruence.
+  - intros t Hin. unfold keys in Hin. apply in_map_iff in Hin. destruct Hin as [[t' c'] [E Hin]]. simpl in E. subst t'.
+    destruct (put_in _ _ _ _ _ Hin) as [H|[[H _]|[c0 [H _]]]].
+    + left. apply in_map_iff. exists (t, c'). split; [reflexivity | exact H].
+    + right. exact H.
+    + left. apply in_map_iff. exists (t, c0). split; [reflexivity | exact H].
+Qed.
+
+Lemma inv_clauses k its :
+  C16_inv k its -> forall t c, In (t, c) its ->
+  t <> [] /\ is_absolute t = false /\ all_normal (components t) = true /\ rebuild (components t) = t /\
+  (forall t' c', In (t', c') its ->
+     ~ proper_prefix (components t) (components t') /\ ~ proper_prefix (components t') (components t)) /\
+  (k = KImage -> length (components t) = 1%nat /\ forall b, c = Loaded b -> starts_with PNG_SIG b = true).
+Proof.
+  intros [_ [Hk [Hp Hi]]] t c Hin. destruct (Hk t c Hin) as [K1 [K2 [K3 K4]]].
+  split; [exact K1|]. split; [exact K2|]. split; [exact K3|]. split; [exact K4|]. split.
+  - intros t' c' Hin'. split; eapply Hp; eassumption.
+  - intros Ek. apply (Hi Ek t c Hin).
+Qed.
+
+Lemma error_entries_are_found k d its t :
+  C16_inv k its ->
+  (forall e, In (t, Error e) its -> In (t, GErr e) (fst (iter k d its))) /\
+  (In (t, NotLoaded) its -> os_read d t = None -> In (t, GErr Io) (fst (iter k d its))) /\
+  (forall b, In (t, Loaded b) its -> In (t, GOk b) (fst (iter k d its))) /\
+  (forall b, In (t, NotLoaded) its -> os_read d t = Some b -> (k = KImage -> starts_with PNG_SIG b = true) ->
+             In (t, GOk b) (fst (iter k d its))).
+Proof.
+  intros Hinv. pose proof (inv_nodup _ _ Hinv) as Hnd. split; [|split; [|split]].
+  - intros e. apply iter_reports_error. exact Hnd.
+  - apply iter_reports_unreadable. exact Hnd.
+  - intros b. apply iter_reports_loaded. exact Hnd.
+  - intros b Hin Hr Hs. rewrite (iter_spec k d its Hnd). simpl. apply in_map_iff. exists (t, NotLoaded).
+    split; [|exact Hin]. unfold force, load_item. simpl. rewrite Hr.
+    rewrite (validate_existing k its t NotLoaded b Hinv Hin Hs). reflexivity.
+Qed.
